@@ -27,6 +27,8 @@ pub enum Call {
     DotAttr(u8),
     EdgeEq(K, K),
     NodeCmp(K, K),
+    /// deserialise this JSON document (fixed text: nothing depends on hash order, error texts included)
+    DeDoc(String),
 }
 
 #[derive(Clone, Debug)]
@@ -286,6 +288,27 @@ pub fn run_program<F: Flav>(p: &Program) -> Vec<String> {
                 let e4 = F::mk_edge(na, nb, Eid { id: 1, val: 1 });
                 format!("edge_eq {} {} -> same endpoints other value {} | reversed {} | identical {}", a, b, F::e_eq(&e1, &e2), F::e_eq(&e1, &e3), F::e_eq(&e1, &e4))
             }
+            Call::DeDoc(text) => {
+                let r = catch(|| F::de_json(text));
+                match r {
+                    Err(p) => format!("de_doc -> panic {}", panic_class(&p).replace("sync_", "")),
+                    Ok(Err(e)) => format!("de_doc -> error {}", e),
+                    Ok(Ok(g2)) => {
+                        let mut rows: Vec<String> = F::g_iter(&g2)
+                            .iter()
+                            .map(|(k, n)| {
+                                let mut out: Vec<(K, u32, i32)> = F::iter_out(n).iter().map(|e| (F::key(F::e_dst(e)), F::e_val(e).id, F::e_val(e).val)).collect();
+                                if !F::DIRECTED {
+                                    out.sort();
+                                }
+                                format!("{}={} {:?}", k, F::val(n).prio, out)
+                            })
+                            .collect();
+                        rows.sort();
+                        format!("de_doc -> ok {:?}", rows)
+                    }
+                }
+            }
             Call::NodeCmp(a, b) => {
                 let (na, nb) = (&w.nodes[*a as usize], &w.nodes[*b as usize]);
                 format!("node_cmp {} {} -> eq {} cmp {:?}", a, b, F::node_eq(na, nb), F::node_cmp(na, nb))
@@ -354,6 +377,23 @@ pub fn random_program(rng: &mut Rng, directed: bool, len: usize) -> Program {
             // to_dot_with_attr is not part of the API common to ungraph and sync_ungraph
             97 if directed => Call::DotAttr(rng.below(8) as u8),
             97 => Call::Dot,
+            98 if rng.chance(1, 2) => {
+                // a document with its own node and edge lists; keys up to n+1 may be undeclared, repeated or missing
+                let mut nodes = vec![];
+                for k in 0..n {
+                    if rng.chance(4, 5) {
+                        nodes.push(format!("[{},{}]", k, rng.below(7)));
+                    }
+                    if rng.chance(1, 8) {
+                        nodes.push(format!("[{},{}]", k, rng.below(7)));
+                    }
+                }
+                let mut edges = vec![];
+                for j in 0..rng.below(2 * n + 1) {
+                    edges.push(format!("[{},{},[{},{}]]", rng.below(n + 2), rng.below(n + 2), j + 1, rng.below(5)));
+                }
+                Call::DeDoc(format!("[[{}],[{}]]", nodes.join(","), edges.join(",")))
+            }
             98 => Call::EdgeEq(a, b),
             _ => Call::NodeCmp(a, b),
         };
@@ -378,6 +418,7 @@ pub fn compare<A: Flav, B: Flav>(p: &Program, rep: &mut Report, origin: &str) {
             Call::Json | Call::Cbor => "calls.serde",
             Call::Dot | Call::DotAttr(..) => "calls.dot",
             Call::EdgeEq(..) | Call::NodeCmp(..) => "calls.compare",
+            Call::DeDoc(..) => "calls.deserialise_given_document",
         });
     }
     if let Some(i) = (0..ta.len().max(tb.len())).find(|i| ta.get(*i) != tb.get(*i)) {
